@@ -17,6 +17,7 @@ fn main() {
     let (prop, tier, seed, driver, known, out) = (&a[1], &a[2], a[3].parse::<u64>().unwrap_or(1), &a[4], &a[5], &a[6]);
     util::install_panic_hook();
     let mut ctx = Ctx::new(prop, tier, seed, driver, load_known(known));
+    ctx.notes.extend(render::calibrate());
     match prop.as_str() {
         "C11" => props::c11::run(&mut ctx),
         "C12" => props::c12::run(&mut ctx),
